@@ -1,7 +1,7 @@
 //! Parallel processing for DBC files
 
 use crate::field_parser::bounded_capacity;
-use crate::{DbcHeader, FieldType, Record, RecordSet, Result, Schema, StringBlock, Value};
+use crate::{DbcHeader, Error, FieldType, Record, RecordSet, Result, Schema, StringBlock, Value};
 use rayon::prelude::*;
 use std::io::{Cursor, Read, Seek, SeekFrom};
 use std::sync::{Arc, Mutex};
@@ -13,6 +13,16 @@ pub fn parse_records_parallel(
     schema: Option<&Schema>,
     string_block: Arc<StringBlock>,
 ) -> Result<RecordSet> {
+    // The record count comes from the header and sizes the vectors below, so the
+    // records it announces have to be present in the data
+    let available = data.len().saturating_sub(DbcHeader::SIZE) as u64;
+    if header.record_count as u64 * header.record_size.max(1) as u64 > available {
+        return Err(Error::OutOfBounds(format!(
+            "{} records of {} bytes do not fit into {} bytes of record data",
+            header.record_count, header.record_size, available
+        )));
+    }
+
     // Create a vector to hold the records
     let records: Arc<Mutex<Vec<Option<Record>>>> =
         Arc::new(Mutex::new(vec![None; header.record_count as usize]));
